@@ -57,7 +57,7 @@ def checkFuel : Nat := 100000
 mutual
 /-- `check_expression` with calls.  `restricted` = loop-restricted variables (OUT / IN_OUT
 bindings count as modifications). -/
-def inferX (fs : List FuncDef) (Γ : Ctx) (restricted : List String) : Nat → XExpr → Option Ty
+def inferX (fs : List FuncDef) (ic : List (String × FbDef)) (Γ : Ctx) (restricted : List String) : Nat → XExpr → Option Ty
   | 0, _ => none
   | fuel + 1, ex =>
   match ex with
@@ -66,15 +66,15 @@ def inferX (fs : List FuncDef) (Γ : Ctx) (restricted : List String) : Nat → X
   | .blit _ => some .bool
   | .var x => Γ.lookup x
   | .un .neg e =>
-    match inferX fs Γ restricted fuel e with
+    match inferX fs ic Γ restricted fuel e with
     | some (.int k) => some (.int k)
     | _ => none
   | .un .not e =>
-    match inferX fs Γ restricted fuel e with
+    match inferX fs ic Γ restricted fuel e with
     | some .bool => some .bool
     | _ => none
   | .bin op l r =>
-    match inferX fs Γ restricted fuel l, inferX fs Γ restricted fuel r with
+    match inferX fs ic Γ restricted fuel l, inferX fs ic Γ restricted fuel r with
     | some tl, some tr =>
       if op.isArith then
         match tl, tr with
@@ -90,6 +90,11 @@ def inferX (fs : List FuncDef) (Γ : Ctx) (restricted : List String) : Nat → X
         | .bool, .bool => some .bool
         | _, _ => none
     | _, _ => none
+  | .fld c f =>
+    -- `instance.member`: VAR_INPUT / VAR_OUTPUT / VAR_IN_OUT are readable from outside, VAR is PROTECTED
+    match ic.lookup c with
+    | none => none
+    | some fb => (fb.params.find? (fun q => q.name.toUpper = f.toUpper)).map (·.ty)
   | .call f args =>
     match findFunc fs f with
     | none => none
@@ -104,10 +109,10 @@ def inferX (fs : List FuncDef) (Γ : Ctx) (restricted : List String) : Nat → X
       match bound with
       | none => none
       | some b =>
-        if argsOk fs Γ restricted fuel formal fd.params b then some fd.ret else none
+        if argsOk fs ic Γ restricted fuel formal fd.params b then some fd.ret else none
 
 /-- `check_bound_call_argument_types` (+ the missing IN_OUT test of a formal call). -/
-def argsOk (fs : List FuncDef) (Γ : Ctx) (restricted : List String) : Nat → Bool → List Param → Bound → Bool
+def argsOk (fs : List FuncDef) (ic : List (String × FbDef)) (Γ : Ctx) (restricted : List String) : Nat → Bool → List Param → Bound → Bool
   | 0, _, _, _ => false
   | _ + 1, _, [], _ => true
   | _ + 1, _, _ :: _, [] => true
@@ -118,7 +123,7 @@ def argsOk (fs : List FuncDef) (Γ : Ctx) (restricted : List String) : Nat → B
         (if formal then (if p.dir = .out then arrow else !arrow) else true) &&
         (match p.dir with
           | .inp =>
-            match inferX fs Γ restricted fuel e with
+            match inferX fs ic Γ restricted fuel e with
             | none => false
             | some s => assignable p.ty s || (p.ty.isInt && isLitExprX e)
           | .out =>
@@ -137,11 +142,11 @@ def argsOk (fs : List FuncDef) (Γ : Ctx) (restricted : List String) : Nat → B
                   | some t => assignable p.ty t && assignable t p.ty
                   | none => false)
             | _ => false))
-      && argsOk fs Γ restricted fuel formal ps as
+      && argsOk fs ic Γ restricted fuel formal ps as
 end
 
-def assignOkX (fs : List FuncDef) (Γ : Ctx) (restricted : List String) (target : Ty) (e : XExpr) : Bool :=
-  match inferX fs Γ restricted checkFuel e with
+def assignOkX (fs : List FuncDef) (ic : List (String × FbDef)) (Γ : Ctx) (restricted : List String) (target : Ty) (e : XExpr) : Bool :=
+  match inferX fs ic Γ restricted checkFuel e with
   | none => false
   | some s => assignable target s || (target.isInt && isLitExprX e)
 
@@ -149,8 +154,8 @@ def simpleVarX : XExpr → List String
   | .var x => [x]
   | _ => []
 
-def forBoundOkX (fs : List FuncDef) (Γ : Ctx) (restricted : List String) (ctl : Option IKind) (e : XExpr) : Bool :=
-  match inferX fs Γ restricted checkFuel e with
+def forBoundOkX (fs : List FuncDef) (ic : List (String × FbDef)) (Γ : Ctx) (restricted : List String) (ctl : Option IKind) (e : XExpr) : Bool :=
+  match inferX fs ic Γ restricted checkFuel e with
   | some (.int k) =>
     match ctl with
     | some c => decide (k = c) || isLitExprX e
@@ -161,6 +166,10 @@ def forBoundOkX (fs : List FuncDef) (Γ : Ctx) (restricted : List String) (ctl :
 name and return type. -/
 structure Pou where
   ret : Option (String × Ty)
+  /-- VAR_INPUT parameters of a FUNCTION may not be assigned ("cannot assign to input parameter") -/
+  readonly : List String := []
+  /-- FB instance variables in scope (PROGRAM only) -/
+  ic : List (String × FbDef) := []
 
 mutual
 def checkXStmt (fs : List FuncDef) (pou : Pou) (ce : Bool) (Γ : Ctx) (restricted : List String) (inLoop : Bool) :
@@ -168,13 +177,27 @@ def checkXStmt (fs : List FuncDef) (pou : Pou) (ce : Bool) (Γ : Ctx) (restricte
   | .assign x e =>
     match Γ.lookup x with
     | none => false
-    | some t => !restricted.contains x && assignOkX fs Γ restricted t e
-  | .expr e => (inferX fs Γ restricted checkFuel e).isSome
+    | some t => !restricted.contains x && !pou.readonly.contains x && assignOkX fs pou.ic Γ restricted t e
+  | .fbcall c args =>
+    match pou.ic.lookup c with
+    | none => false
+    | some fb =>
+      let formal := args.length = 0 || args.anyNamed
+      let empty : Bound := fb.params.map fun _ => none
+      let bound : Option Bound :=
+        if fb.params.isEmpty then (if args.length = 0 then some [] else none)
+        else if formal then bindFormal fb.params args 0 false empty
+        else if args.length = fb.params.length then some (bindPositional fb.params args 0 empty)
+        else none
+      match bound with
+      | none => false
+      | some b => argsOk fs pou.ic Γ restricted checkFuel formal fb.params b
+  | .expr e => (inferX fs pou.ic Γ restricted checkFuel e).isSome
   | .ite c t elifs el =>
-    inferX fs Γ restricted checkFuel c = some .bool && checkXBlock fs pou ce Γ restricted inLoop t
+    inferX fs pou.ic Γ restricted checkFuel c = some .bool && checkXBlock fs pou ce Γ restricted inLoop t
       && checkXElifs fs pou ce Γ restricted inLoop elifs && checkXBlock fs pou ce Γ restricted inLoop el
   | .case sel brs el =>
-    match inferX fs Γ restricted checkFuel sel with
+    match inferX fs pou.ic Γ restricted checkFuel sel with
     | some (.int k) =>
       (checkXBranches fs pou ce Γ restricted inLoop k {} brs).isSome
         && (!ce || checkXBlock fs pou ce Γ restricted inLoop el)
@@ -188,18 +211,18 @@ def checkXStmt (fs : List FuncDef) (pou : Pou) (ce : Bool) (Γ : Ctx) (restricte
     match ctl with
     | none => false
     | some c =>
-      forBoundOkX fs Γ restricted c s && forBoundOkX fs Γ restricted c e
-        && (match step with | none => true | some st => forBoundOkX fs Γ restricted c st)
+      forBoundOkX fs pou.ic Γ restricted c s && forBoundOkX fs pou.ic Γ restricted c e
+        && (match step with | none => true | some st => forBoundOkX fs pou.ic Γ restricted c st)
         && checkXBlock fs pou ce Γ (x :: simpleVarX s ++ simpleVarX e ++ restricted) true body
-  | .while c body => inferX fs Γ restricted checkFuel c = some .bool && checkXBlock fs pou ce Γ restricted true body
-  | .repeat body c => inferX fs Γ restricted checkFuel c = some .bool && checkXBlock fs pou ce Γ restricted true body
+  | .while c body => inferX fs pou.ic Γ restricted checkFuel c = some .bool && checkXBlock fs pou ce Γ restricted true body
+  | .repeat body c => inferX fs pou.ic Γ restricted checkFuel c = some .bool && checkXBlock fs pou ce Γ restricted true body
   | .exit => inLoop
   | .continue => inLoop
   | .ret none => pou.ret.isNone                   -- bare RETURN in a FUNCTION: "missing return value"
   | .ret (some e) =>
     match pou.ret with
     | none => false                                -- "unexpected return value in procedure"
-    | some (_, t) => assignOkX fs Γ restricted t e
+    | some (_, t) => assignOkX fs pou.ic Γ restricted t e
 
 def checkXBlock (fs : List FuncDef) (pou : Pou) (ce : Bool) (Γ : Ctx) (restricted : List String) (inLoop : Bool) :
     XBlock → Bool
@@ -210,7 +233,7 @@ def checkXElifs (fs : List FuncDef) (pou : Pou) (ce : Bool) (Γ : Ctx) (restrict
     XElifs → Bool
   | .nil => true
   | .cons c b rest =>
-    inferX fs Γ restricted checkFuel c = some .bool && checkXBlock fs pou ce Γ restricted inLoop b
+    inferX fs pou.ic Γ restricted checkFuel c = some .bool && checkXBlock fs pou ce Γ restricted inLoop b
       && checkXElifs fs pou ce Γ restricted inLoop rest
 
 def checkXBranches (fs : List FuncDef) (pou : Pou) (ce : Bool) (Γ : Ctx) (restricted : List String) (inLoop : Bool)
@@ -258,6 +281,7 @@ def XExpr.lowerable : XExpr → Bool
   | .un _ e => e.lowerable
   | .bin _ l r => l.lowerable && r.lowerable
   | .call _ args => args.lowerable
+  | .fld _ _ => true
 def XArgs.lowerable : XArgs → Bool
   | .nil => true
   | .cons _ _ e rest => e.lowerable && rest.lowerable
@@ -267,6 +291,7 @@ mutual
 def XStmt.lowerable : XStmt → Bool
   | .assign _ e => e.lowerable
   | .expr e => e.lowerable
+  | .fbcall _ args => args.lowerable
   | .ite c t elifs el => c.lowerable && t.lowerable && elifs.lowerable && el.lowerable
   | .case sel brs el => sel.lowerable && brs.lowerable && el.lowerable
   | .for _ s e step body =>
@@ -305,15 +330,31 @@ def funcOk (fs : List FuncDef) (ce : Bool) (fd : FuncDef) : Bool :=
   distinctNames (fd.params.map (·.name) ++ fd.locals.map (·.name))
     && fd.params.all (fun p => initOk p.ty p.default)
     && fd.locals.all (fun l => initOk l.ty l.init)
-    && checkXBlock fs { ret := some (fd.name, fd.ret) } ce fd.ctx [] false fd.body
+    && checkXBlock fs (Pou.mk (some (fd.name, fd.ret))
+        ((fd.params.filter (fun q => q.dir = .inp)).map (·.name)) []) ce fd.ctx [] false fd.body
     && sawReturnBlock fd.name ce fd.body
     && fd.body.lowerable
 
+def FbDef.ctx (fb : FbDef) : Ctx :=
+  fb.params.map (fun q => (q.name, q.ty)) ++ fb.vars.map (fun l => (l.name, l.ty))
+
+def fbOk (fs : List FuncDef) (ce : Bool) (fb : FbDef) : Bool :=
+  distinctNames (fb.params.map (·.name) ++ fb.vars.map (·.name))
+    && fb.params.all (fun q => initOk q.ty q.default)
+    && fb.vars.all (fun l => initOk l.ty l.init)
+    && checkXBlock fs { ret := none } ce fb.ctx [] false fb.body
+    && fb.body.lowerable
+
+def XProgram.instCtx (p : XProgram) : List (String × FbDef) :=
+  p.insts.filterMap fun (c, t) => (findFb p.fbs t).map fun fb => (c, fb)
+
 def XProgram.acceptedWith (ce : Bool) (p : XProgram) : Bool :=
-  distinctNames (p.decls.map (·.name)) && p.decls.all VarDecl.ok
-    && distinctNames (p.funcs.map (·.name.toUpper))
+  distinctNames (p.decls.map (·.name) ++ p.insts.map (·.1)) && p.decls.all VarDecl.ok
+    && distinctNames (p.funcs.map (·.name.toUpper) ++ p.fbs.map (·.name.toUpper))
     && p.funcs.all (funcOk p.funcs ce)
-    && checkXBlock p.funcs { ret := none } ce (p.decls.map fun d => (d.name, d.ty)) [] false p.body
+    && p.fbs.all (fbOk p.funcs ce)
+    && p.insts.all (fun (_, t) => (findFb p.fbs t).isSome)
+    && checkXBlock p.funcs (Pou.mk none [] p.instCtx) ce (p.decls.map fun d => (d.name, d.ty)) [] false p.body
     && p.body.lowerable
 
 def XProgram.accepted (p : XProgram) : Bool := p.acceptedWith false
